@@ -413,18 +413,21 @@ def expected(name, o, ds):
                     ys.append(0.0 if cc == pc else (cc - tot) / (cc - pc))
                 out.append((0, "line", nm[f], cl, ys))
     elif name == "invreliability":
-        q = o["q"][0]
+        # one group of curves per quantile level, in -q order; within a group one curve per input.  Every curve is the
+        # statistic of ITS level only: a bin with fewer than two cases of that level has no point (y NaN), an empty
+        # bin has x = 0 -- whatever another level has in that bin.  Only the first group carries the legend names.
         edges = o["r"]
-        V = valid(ds, ["obs", fkey("q", q)])
-        for f in range(F):
-            ob, qv = take(ds, f, "obs", V), take(ds, f, fkey("q", q), V)
-            bins = [[] for _ in edges[:-1]]
-            for x, v in zip(ob, qv):
-                i = ref_bin(edges, v, "ho")
-                if i is not None:
-                    bins[i].append((1.0 if x <= v else 0.0, v))
-            out.append((0, "line", nm[f], [mean(v for _, v in bn) if bn else 0.0 for bn in bins],
-                        [mean(x for x, _ in bn) if len(bn) >= 2 else NAN for bn in bins]))
+        for t, q in enumerate(o["q"]):
+            V = valid(ds, ["obs", fkey("q", q)])
+            for f in range(F):
+                ob, qv = take(ds, f, "obs", V), take(ds, f, fkey("q", q), V)
+                bins = [[] for _ in edges[:-1]]
+                for x, v in zip(ob, qv):
+                    i = ref_bin(edges, v, "ho")
+                    if i is not None:
+                        bins[i].append((1.0 if x <= v else 0.0, v))
+                out.append((0, "line", nm[f] if t == 0 else "", [mean(v for _, v in bn) if bn else 0.0 for bn in bins],
+                            [mean(x for x, _ in bn) if len(bn) >= 2 else NAN for bn in bins]))
     elif name in ("performance", "taylor", "error", "bsdecomp", "standard"):
         ax = o.get("x", "leadtime" if name == "standard" else "none")
         xs, ms = axis_slices(ds, ax)
@@ -652,10 +655,12 @@ def binned_values(name, o, ds):
             N = min(25, max(11, len(vals[0]) // 1000))
             edges = [i / float(N) for i in range(N + 1)]
         return edges, "ho", vals
-    if name == "invreliability":
-        q = o["q"][0]
-        V = valid(ds, ["obs", fkey("q", q)])
-        return o["r"], "ho", [take(ds, f, fkey("q", q), V) for f in range(F)]
+    if name == "invreliability":      # one list per drawn curve: quantile levels in -q order x inputs
+        vals = []
+        for q in o["q"]:
+            V = valid(ds, ["obs", fkey("q", q)])
+            vals += [take(ds, f, fkey("q", q), V) for f in range(F)]
+        return o["r"], "ho", vals
     if name == "scatter" and "r" in o and not o.get("simple") and o.get("x", "none") in ("none", "no"):
         V = valid(ds, ["obs", "fcst"])
         return o["r"], "ho", [take(ds, f, "fcst", V) for f in range(F)]
